@@ -21,16 +21,25 @@ TRUSTED = [
     "str.lower() is an uninterpreted function in the theorems and ASCII lowering in the driver; generated names use ASCII and uncased CJK only",
     "C03 model scope: ServiceRegistry._add/_remove/async_update, ServiceInfo record builders + memo slots, QueryHandler._get_answer_strategies/"
     "_answer_question/_add_*_answers, DNSRRSet.suppresses, answers._add_answers_additionals; the routing of an answer to the unicast / multicast-now / "
-    "aggregate / last-second bucket is not modelled (C11/C12) -- only the union of the buckets is observed",
-    "ServiceInfo construction/validation (service_type_name), ipaddress parsing and interface_index scoping are driven, not modelled; "
-    "registered infos always have a server (set_server_if_missing) as _add asserts",
+    "aggregate / last-second bucket is not modelled (C11/C12) -- only the union of the buckets is observed; for a query mixing QU and QM questions the "
+    "union is compared at record-identity level when the exact comparison fails (two buckets may keep different key objects of one identity)",
+    "ServiceInfo construction/validation (service_type_name) and ipaddress parsing are driven, not modelled; interface_index (None or 3) is driven and the "
+    "model hard-wires scope_id = None in address records (what _dns_addresses builds today); registered infos always have a server "
+    "(set_server_if_missing) as _add asserts; one datagram per message of a query (no TC continuation through the listener)",
     "wire order of answers (sorted by name) and of additionals (set iteration order) is not compared; sets are compared as sets",
+    "the pending-reply layer of the Lean model (Zc.RHost: replies computed but not yet transmitted, C03_transmitted_current_*) is an abstraction of the "
+    "two outgoing queues that the correspondence harness does not drive; the implementation's datagrams around an update/unregister are judged by the "
+    "oracle directly (simulated-host change family)",
 ]
 ASSUMPTIONS = [
     "CPython dict/set behave as maps for keys with congruent __eq__/__hash__ (C20)",
     "reading decisions (notes/agents/C03.md): the type-enumeration meta-query is a PTR question (RFC 6763 s9), ANY on the enumeration name is not an "
     "enumeration question; a known-answer list that lists one record twice with contradictory TTLs leaves the answer optional; "
-    "attribute writes on a registered ServiceInfo take effect at the next async_update (stale memo until then is not a violation)",
+    "attribute writes on a registered ServiceInfo take effect at the next async_update (stale memo until then is not a violation); "
+    "NSEC (reading 9): owner/next name = the instance name and the bitmap lists the missing address types, as the library builds it; the NSEC of every "
+    "service of the asked host that lacks the asked type is allowed, it is owed only when no registered service of that host has the type",
+    "on the wire 'replies reflect only the new state' is read as: every record (TTL-0 goodbyes aside) of a response datagram transmitted after the "
+    "async_update_service / async_unregister_service call is a record of a service registered after that call",
 ]
 
 ENUM = "_services._dns-sd._udp.local."
@@ -1270,8 +1279,8 @@ def assess(res, ops, steps, model_line, omodel, olines, label):
             if o == "bad-op":
                 continue
             ma, _, mb = o.partition(" # ")
-            mids = lambda s: sorted(ident(rtuple(rec_from_line(x))) for x in s.split(" ; ")) if s != "empty" else []
-            if mids(ma) != sorted(ident(rtuple(a)) for a in answers) or mids(mb) != sorted(ident(rtuple(a)) for a in adds):
+            mids = lambda s: sorted((ident(rtuple(rec_from_line(x))) for x in s.split(" ; ")), key=repr) if s != "empty" else []
+            if mids(ma) != sorted((ident(rtuple(a)) for a in answers), key=repr) or mids(mb) != sorted((ident(rtuple(a)) for a in adds), key=repr):
                 res.disagree("c03p", {"ops": ops[: si + 1], "bucket": bname}, [rline(a) for a in adds], mb)
         if len(res.samples) < 3 and nans >= 2 and nk:
             res.sample({"questions": [(x.name, x.type) for x in q["qs"]], "known": [rline(k) for k in q["known"]][:3], "answers": [rline(a) for a, _ in q["observed"]][:4],
